@@ -43,7 +43,7 @@ class FruDevice:
     overrides {write index: acknowledged count}; script {request index: bytes | Exception}
     overrides the reply of single requests (non-conforming devices for the decoding tie)."""
 
-    def __init__(self, mems, limit=255, rej=0xca, acks=None, script=None, max_requests=20000, trunc=False):
+    def __init__(self, mems, limit=255, rej=0xca, acks=None, script=None, max_requests=200000, trunc=False):
         self.mems = {int(k): bytearray(v) for k, v in mems.items()}
         self.limit, self.rej = limit, rej
         self.acks = {int(k): v for k, v in (acks or {}).items()}
@@ -419,9 +419,11 @@ def run(ctx):
     # (c) large contents: 4 KiB quick, up to 64 KiB thorough; 256 ids with distinct contents
     big = [4096] if q else [4096, 20000, 65535]
     for size in big:
-        for limit, rej in ((2, 0xc8), (17, 0xc9), (255, 0xca)) if size <= 4096 or not q else ((32, 0xca),):
+        for limit, rej in ((2, 0xc8), (17, 0xc9), (255, 0xca)):
             mems = {j: rnd(size if j == 9 else 40) for j in (0, 9, 200)}
-            read_case(mems, limit, rej, 9, None, None, kind='read-big')
+            # whole-area reads of the large contents go through Coq only for limits >= 17 (the model's
+            # accumulating append is quadratic under vm_compute); the oracle runs on all of them
+            read_case(mems, limit, rej, 9, None, None, kind='read-big', corr=(size <= 4096 or limit >= 17))
             read_case(mems, limit, rej, 9, size - 1000 if size > 1000 else 0, min(size, 1000), kind='read-big')
     if not q:
         mems = {9: rnd(65536)}
@@ -485,7 +487,7 @@ def run(ctx):
             mems = {ids[0]: rnd(size), ids[1]: rnd(50)}
             ln = rng.choice([0, 1, wl - 1, wl, wl + 1, 2 * wl, 2 * wl + 1, 3 * wl - 1, rng.randrange(0, 5 * wl + 1)])
             ln = max(0, min(ln, size))
-            off = rng.choice([0, 1, size - ln, rng.randrange(0, size - ln + 1)])
+            off = rng.choice([0, min(1, size - ln), size - ln, rng.randrange(0, size - ln + 1)])
             write_case(mems, ids[0], off, rnd(ln), wl)
             # one wrongly acknowledged chunk at each position (first, middle, last)
             data = rnd(min(size, 3 * wl + 2))
@@ -582,7 +584,23 @@ def run(ctx):
                             key='_read_fru_area:wrong-bytes-or-id', what='area %s of %s read wrongly' % (nm, name),
                             replay={'oracle': 'inventory', 'input': inp}))
 
-    failing, errors = C.coq_cases('C10', 'Lib.Prog Model.FruIO Corr.C10', terms, shard=60 if q else 40)
+    # the 64 KiB cases are 100k-character literals: give the coqc children the full stack
+    try:
+        import resource
+        soft, hard = resource.getrlimit(resource.RLIMIT_STACK)
+        resource.setrlimit(resource.RLIMIT_STACK, (hard, hard))
+    except Exception:  # noqa
+        pass
+    # large cases get a case file each, the rest is sharded
+    small_ix = [i for i, t in enumerate(terms) if len(t) < 200000]
+    big_ix = [i for i, t in enumerate(terms) if len(t) >= 200000]
+    f1, errors = C.coq_cases('C10', 'Lib.Prog Model.FruIO Corr.C10', [terms[i] for i in small_ix], shard=60 if q else 40)
+    failing = [small_ix[i] for i in f1]
+    if big_ix:
+        f2, e2 = C.coq_cases('C10big', 'Lib.Prog Model.FruIO Corr.C10', [terms[i] for i in big_ix], shard=1, timeout=1100)
+        failing += [big_ix[i] for i in f2]
+        errors += e2
+    failing.sort()
     res.mismatches = [{'case': meta[i], 'term': terms[i][:400]} for i in failing[:50]]
     res.corr_errors = errors
     res.evaluations += len(terms)
